@@ -28,6 +28,10 @@ CHECKS = {
             "DESIGN.md §3 C06 + appendix A",
             "Encode direction: the full product of CCI/TSI/TOI width classes (min, max, pattern per class) x close flag x 6 codepoints x 8 extension sets, plus per-scheme EXT_FTI boundary values, payload-id ranges, SCT instants from 1970 to the NTP era end, FDT ids and versions, built by flute's packet builder and decoded field by field by rfc.rs and by flute itself. Decode direction: rfc.rs packets over every (C,S,O,H) combination, flags, extension orders with unknown variable-length (HEL 1..200) and fixed-length extensions at every position, FTI / payload-id / SCT boundary values, parsed by flute.",
             "Trusted: rfc.rs (written from the RFC texts, appendix A of DESIGN.md). Values inside a width class are the class bounds and one pattern, not every value."),
+    "C08": ("model_checking", "exhaustive configuration grid x one deviation (remove_object after every packet index) on the real Sender, stream decoded by an independent codec", "seqx",
+            "DESIGN.md §3 C08",
+            "For scheme x (E,B) x parity x every L <= 3EB+2 x interleave 1..3 x cenc x transfer count 1..3 x carousel, and for the removal of the object after every packet index with and without immediate stop, the real Sender is drained and every complete transfer (delimited by Subscriber events) is checked symbol by symbol against the RFC slices of the transfer-encoded object; B only on the final packet / the one packet after a forced stop / the lone packet of an empty object; A only on read_close_session.",
+            "Trusted: rfc.rs decode and the 128-bit partition reference; transfers cut by a forced stop are exempt from completeness as the property states."),
 }
 
 NOT_YET = {}
